@@ -211,6 +211,8 @@ class ZarrList(ZarrCollection, SyncedList):
 
     """
 
+    _validators = (require_string_key,)
+
     def __init__(self, group=None, name=None, data=None, parent=None, *args, **kwargs):
         super().__init__(
             group=group, name=name, data=data, parent=parent, *args, **kwargs
